@@ -1,6 +1,7 @@
 import ActixNet.Lemmas.SrvListen
 import ActixNet.Lemmas.SrvStrand
 import ActixNet.Lemmas.WakerQueue
+import ActixNet.Lemmas.SrvDrain
 /-!
 # C05 — pause, resume and accept-error back-off never strand a listener
 
@@ -311,5 +312,82 @@ theorem queued_commands_are_never_lost {α : Type} (steps : List (WakerQueue.Ste
 example : (WakerQueue.run ({} : WakerQueue.Q Nat) [.push 1, .pop, .pop, .push 2, .pop]).processed = [1, 2] := by decide
 -- … whereas with the lock released between "found empty" and "reset" (two steps) the same push is wiped out:
 example : ([WakerQueue.Step'.push 1, .pop, .pop, .push 2, .resetAfterEmpty, .pop].foldl WakerQueue.step' ({} : WakerQueue.Q Nat)).processed = [1] := by decide
+
+/-! ### An iteration never goes back to sleep with a command left in the waker queue -/
+
+/-- **One iteration of the accept loop handles every interest that is in the waker queue.**  If the mio
+batch contains the waker event and no other thread pushes while the iteration runs (`sched = []`; what
+is pushed meanwhile is covered by `queued_commands_are_never_lost` and the next waker event), then the
+iteration that returns to `poll()` (not `exited`, no Rust panic / endless loop: `fault = none`) leaves
+the waker queue EMPTY — in whatever order the listener events and the waker event come, whatever the
+queue holds.  For the code: `handle_waker` loops until `pop_front()` returns `None`; no arm returns
+early except `Stop`.  So a `Resume` or `Stop` queued behind a redundant `Pause`, or the handle of a
+replacement worker (`Worker`) queued behind a command, is handled by the SAME iteration — the waker has
+already been reset, nothing would wake the thread for what is left behind.  The harness oracle "the
+iteration returned with interests still in the waker queue" states the same on the real loop (seed13
+C01-26 made the `Pause` arm `return` early).  No hypothesis on `s`: an iteration on an `exited` or
+faulted state is a no-op and is excluded by the two premises. -/
+theorem iteration_drains_waker_queue (cfg : Cfg) (s : St) (order : List Ev) :
+    Ev.waker ∈ order →
+    let s' := poll cfg s order []
+    s'.fault = none → s'.exited = false → s'.wq = [] := by
+  intro hw s' hnf hne
+  rcases poll_drains cfg s order hw with h | h | h
+  · rw [hne] at h; cases h
+  · rw [hnf] at h; cases h
+  · exact h.1
+
+/-- the complement (C06, "stop always completes"): a `Stop` that is in the waker queue — behind any
+number of other commands and notifications — is reached by that same iteration, which then exits -/
+theorem iteration_reaches_queued_stop (cfg : Cfg) (s : St) (order : List Ev) :
+    Ev.waker ∈ order → Interest.stop ∈ s.wq →
+    let s' := poll cfg s order []
+    s'.fault = none → s'.exited = true := by
+  intro hw hst s' hnf
+  rcases poll_drains cfg s order hw with h | h | h
+  · exact h
+  · rw [hnf] at h; cases h
+  · exact absurd hst h.2
+
+/-- **in every reachable state, unconditionally** (any history from the initial state of a valid
+configuration; the fault-free premise is discharged by `run_fault_none`): after an iteration that saw
+the waker event the accept loop has exited or the waker queue is empty; and it has exited if a `Stop`
+was queued.  (`Op.finishW2` runs exactly such an iteration inside the W2 window.) -/
+theorem reachable_iteration_drains_waker_queue (cfg : Cfg) (ok : CfgOk cfg) (kinds : List Kind) (ops : List Op)
+    (order : List Ev) (hw : Ev.waker ∈ order) :
+    let S := run cfg (init cfg kinds) ops
+    let S' := poll cfg S order []
+    (S'.exited = true ∨ S'.wq = []) ∧ (Interest.stop ∈ S.wq → S'.exited = true) := by
+  intro S S'
+  rcases poll_drains_reachable ok kinds ops order hw with h | h
+  · exact ⟨.inl h, fun _ => h⟩
+  · exact ⟨.inr h.1, fun hst => absurd hst h.2⟩
+
+-- non-vacuity, on reachable states (`i0`: one worker, a TCP and a Unix-domain listener).
+-- a `Resume` queued behind a `Pause` and a redundant `Pause`: one iteration handles all three, the server runs again
+def sPPR : St := run demoCfg i0 [.env (.cmd .pause), .env (.cmd .pause), .env (.cmd .resume)]
+example : sPPR.wq = [.pause, .pause, .resume] ∧ (poll demoCfg sPPR [.waker] []).wq = [] ∧
+    (poll demoCfg sPPR [.waker] []).paused = false ∧ (poll demoCfg sPPR [.waker] []).fault = none ∧
+    (poll demoCfg sPPR [.waker] []).exited = false ∧
+    ((poll demoCfg sPPR [.waker] []).lst 0).registered = true ∧ ((poll demoCfg sPPR [.waker] []).lst 1).registered = true := by
+  decide
+-- the waker event may come anywhere in the batch
+example : (poll demoCfg sPPR [.listener 1, .waker, .listener 0] []).wq = [] ∧
+    (poll demoCfg sPPR [.listener 1, .waker, .listener 0] []).paused = false := by decide
+-- a `Stop` behind a redundant `Pause`: the same iteration exits (and handles nothing after it)
+def sPPS : St := run demoCfg i0 [.env (.cmd .pause), .env (.cmd .pause), .env (.cmd .stop), .env (.cmd .resume)]
+example : Interest.stop ∈ sPPS.wq ∧ (poll demoCfg sPPS [.waker] []).exited = true ∧
+    (poll demoCfg sPPS [.waker] []).fault = none ∧ (poll demoCfg sPPS [.waker] []).wq = [.resume] := by decide
+-- the only worker died and was reported; its replacement's handle is queued behind a `Pause` and a `Resume`:
+-- the same iteration takes the handle, and the connection that arrives afterwards is dispatched to it
+def sRepl : St := run demoCfg i0 [.env (.die 0), .env (.connect 0), .poll [.listener 0, .waker] [],
+  .env (.cmd .pause), .env (.cmd .resume), .env (.restart 0)]
+example : sRepl.wq = [.pause, .resume, .worker 1] ∧ sRepl.handles = [] ∧
+    (poll demoCfg sRepl [.waker] []).wq = [] ∧ (poll demoCfg sRepl [.waker] []).handles = [1] ∧
+    (poll demoCfg sRepl [.waker] []).paused = false ∧ (poll demoCfg sRepl [.waker] []).fault = none ∧
+    (run demoCfg sRepl [.poll [.waker] [], .env (.connect 0), .poll [.listener 0, .waker] []]).dispatched.length = 1 := by
+  decide
+-- the premise `Ev.waker ∈ order` is needed: a batch of listener events only never looks at the queue
+example : (poll demoCfg sPPR [.listener 0, .listener 1] []).wq = [.pause, .pause, .resume] := by decide
 
 end ActixNet.C05
